@@ -4,10 +4,10 @@ package main
 
 import (
 	"fmt"
-	"os"
 	"go/token"
 	"go/types"
 	"math"
+	"os"
 	"strings"
 
 	"golang.org/x/tools/go/ssa"
@@ -160,6 +160,17 @@ func (ex *Exec) libSummary(fr *Frame, st *State, fn *ssa.Function, args []Val, x
 		}
 	case "fmt.Errorf", "errors.New":
 		return one(&IfaceV{Unk: true, NonNil: true})
+	case "errors.Is":
+		// the errors of this module are plain sentinels (never wrapped): identity comparison; nil is never "is" a sentinel
+		x, _ := args[0].(*IfaceV)
+		y, _ := args[1].(*IfaceV)
+		if x != nil && x.Nil {
+			return one(&BoolV{Known: true, Val: y != nil && y.Nil})
+		}
+		if x != nil && y != nil && x.Sentinel != "" && y.Sentinel != "" {
+			return one(&BoolV{Known: true, Val: x.Sentinel == y.Sentinel})
+		}
+		return one(&BoolV{})
 	case "fmt.Sprintf", "fmt.Sprint", "fmt.Sprintln":
 		return one(&StrV{})
 	case "fmt.Fprintf", "fmt.Fprint", "fmt.Fprintln":
@@ -487,6 +498,11 @@ func (ex *Exec) invokeSummary(st *State, m *types.Func, args []Val, resT types.T
 				n := badSt.freshInt("n", 64, true)
 				_, hi := badSt.Range(sl.Len)
 				badSt.refineSym(n.T.Syms[0], 0, hi)
+				pos := ""
+				if len(badSt.Events) > 0 {
+					pos = badSt.Events[len(badSt.Events)-1].Pos
+				}
+				badSt.Events = append(badSt.Events, Event{Kind: "sim:write-failed", Pos: pos})
 				return []callRes{
 					{st: okSt, ret: &TupleV{Vs: []Val{sl.Len, nilErr()}}},
 					{st: badSt, ret: &TupleV{Vs: []Val{n, &IfaceV{Unk: true, NonNil: true}}}},
@@ -497,6 +513,13 @@ func (ex *Exec) invokeSummary(st *State, m *types.Func, args []Val, resT types.T
 				_, hi := st.Range(sl.Len)
 				st.refineSym(n.T.Syms[0], 0, hi)
 				return []callRes{{st: st, ret: &TupleV{Vs: []Val{n, &IfaceV{Unk: true}}}}}, true
+			}
+		}
+	case "Send":
+		// drivers.Out.Send(bytes) error: a port reads the bytes it is given and does not keep or modify them
+		if len(args) == 1 {
+			if _, ok := args[0].(*SliceV); ok {
+				return []callRes{{st: st, ret: &IfaceV{Unk: true}}}, true
 			}
 		}
 	case "Printf":
